@@ -68,10 +68,23 @@ Proof.
   - apply Nat.ltb_lt in H. rewrite Forall_forall in Hargs. apply Hargs. apply nth_In. lia.
 Qed.
 
-(* a field with rename, skip and inline only; inline only in definitions without type parameters *)
-Definition plain_field (n : nat) (f : field) : Prop :=
-  f_flatten f = false /\ f_optional f = NotOptional /\ f_type f = None /\
-  f_skip_none f = false /\ f_serde_ty f = f_ty f /\ pmono n (f_ty f) = true /\ (f_inline f = true -> n = 0%nat).
+Definition not_param (t : rty) : Prop := match t with RParam _ => False | _ => True end.
+
+(* `?` on the property and what serde does with the field agree: a property that may be absent (skip_serializing_if =
+   "Option::is_none") is marked optional; an optional property whose type does not include null is never written as null
+   (`optional` without skip_serializing_if is a known class); `optional_fields` is not looked at through a bare parameter *)
+Definition opt_sound (opt : optional) (f : field) : Prop :=
+  match f_optional f, opt with
+  | NotOptional, NotOptional => f_skip_none f = false
+  | NotOptional, Optional nl =>
+      not_param (f_ty f) /\ (if is_option (f_ty f) then nl = true \/ f_skip_none f = true else f_skip_none f = false)
+  | Optional nl, _ => is_option (f_ty f) = true /\ (nl = true \/ f_skip_none f = true)
+  end.
+
+(* a field with rename, skip, inline and optional only; inline only in definitions without type parameters *)
+Definition plain_field (n : nat) (opt : optional) (f : field) : Prop :=
+  f_flatten f = false /\ f_type f = None /\ f_serde_ty f = f_ty f /\ pmono n (f_ty f) = true /\
+  (f_inline f = true -> n = 0%nat) /\ opt_sound opt f.
 
 Lemma rsubst_nil : forall t, src_ty 0 t = true -> rsubst [] t = t.
 
@@ -136,13 +149,16 @@ Proof.
   - intros p t Hin Ho. apply in_map_iff in Hin as ([p0 t0] & Heq & Hin0). inversion Heq; subst. eapply Hreq; eassumption.
 Qed.
 
-(* the type text of a field: inline() or name() *)
-Definition fty (f : field) : outcome tsty :=
-  if f_inline f then inl (rsubst gargs (f_ty f)) else name_of R (rsubst gargs (f_ty f)).
-(* what is known of the field types: what serde writes for them inhabits their text *)
-Hypothesis Hfld : forall f v j a, plain_field f -> st (rsubst sargs (f_ty f)) v = Some j -> fty f = Ok a -> ev a j.
+(* the text of a type of the definition: inline() or name(), at the generator's arguments *)
+Definition tytext (b : bool) (t : rty) : outcome tsty :=
+  if b then inl (rsubst gargs t) else name_of R (rsubst gargs t).
+(* what is known of the types of the definition: what serde writes for them inhabits their text ... *)
+Hypothesis Hty : forall b t v j a, pmono R n t = true -> (b = true -> n = 0%nat) ->
+  st (rsubst sargs t) v = Some j -> tytext b t = Ok a -> ev a j.
+(* ... and an Option is written as its content or as null *)
+Hypothesis Hsto : forall u v j, st (ROption u) v = Some j -> (v = VNone /\ j = JNull) \/ exists w, v = VSome w /\ st u w = Some j.
 
-Lemma is_flat_plain f : plain_field f -> is_flat f = false.
+Lemma is_flat_plain opt f : plain_field opt f -> is_flat f = false.
 Proof. intros (Hf & _). unfold is_flat. rewrite Hf. reflexivity. Qed.
 
 Lemma filter_all {A} (p : A -> bool) l : (forall x, In x l -> p x = true) -> filter p l = l.
@@ -150,46 +166,94 @@ Proof.
   induction l as [|x l IH]; cbn; intros H; [reflexivity|]. rewrite (H x (or_introl eq_refl)). f_equal. apply IH. intros; apply H; right; assumption.
 Qed.
 
+Lemma is_option_subst args t : not_param t -> is_option (rsubst args t) = is_option t.
+Proof. destruct t; cbn; intros H; try reflexivity. contradiction. Qed.
+
+(* one field with its value: either no entry is written and the property is optional, or the entry inhabits the property's type *)
+Lemma field_rel ra opt f v p :
+  plain_field opt f ->
+  prop_of is_alnum is_numeric R inl gargs ra opt f = Ok p ->
+  p_key (fst p) = Gen.field_key ra f /\
+  ((f_skip_none f && match v with VNone => true | _ => false end = true -> p_optional (fst p) = true) /\
+   (f_skip_none f && match v with VNone => true | _ => false end = false ->
+    forall j, st (rsubst sargs (f_ty f)) v = Some j -> ev (snd p) j)).
+Proof.
+  intros (Hfl & Hty0 & Hsty & Hmono & Hinl0 & Hos) Hp. unfold prop_of in Hp. rewrite Hty0 in Hp.
+  apply bind_ok in Hp as (a & Ha & Hp). inversion Hp; subst p; clear Hp. cbn [fst snd p_key p_optional]. split; [reflexivity|].
+  unfold field_ty in Ha.
+  assert (Hplain : (if f_inline f then inl (rsubst gargs (f_ty f)) else name_of R (rsubst gargs (f_ty f))) = Ok a ->
+                   forall j, st (rsubst sargs (f_ty f)) v = Some j -> ev a j).
+  { intros Ha' j Hj. eapply (Hty (f_inline f) (f_ty f) v j a); eassumption. }
+  assert (Hinner : forall u, f_ty f = ROption u -> f_skip_none f && match v with VNone => true | _ => false end = false ->
+                   f_skip_none f = true ->
+                   (if f_inline f then inl (rsubst gargs u) else name_of R (rsubst gargs u)) = Ok a ->
+                   forall j, st (rsubst sargs (f_ty f)) v = Some j -> ev a j).
+  { intros u Hu Hnn Hsn Ha' j Hj. rewrite Hu in Hj, Hmono. cbn [rsubst pmono] in Hj, Hmono.
+    destruct (Hsto _ _ _ Hj) as [[-> _]|(w & -> & Hw)]; [rewrite Hsn in Hnn; discriminate|].
+    eapply (Hty (f_inline f) u w j a); eassumption. }
+  unfold opt_sound in Hos. unfold field_optional in Ha |- *.
+  destruct (f_optional f) as [|fn] eqn:Hfopt; destruct opt as [|on].
+  - cbn [fst snd] in Ha |- *. rewrite Hos. cbn [andb]. split; [discriminate|]. intros _. apply Hplain. exact Ha.
+  - destruct Hos as [Hnp Hos]. rewrite (is_option_subst gargs _ Hnp) in Ha |- *. cbn [fst snd] in Ha |- *.
+    destruct (f_ty f) as [| u | | | | | | | | | |] eqn:Hft; cbn [is_option] in Hos |- *; try (exfalso; exact Hnp);
+      try (rewrite Hos; cbn [andb]; split; [discriminate|]; intros _; apply Hplain; destruct on; cbn [rsubst option_inner] in Ha; exact Ha).
+    split; [reflexivity|]. intros Hnn. cbn [rsubst option_inner] in Ha.
+    destruct on; [apply Hplain; exact Ha|]. destruct Hos as [Hd|Hsn]; [discriminate|].
+    eapply (Hinner u eq_refl Hnn Hsn); exact Ha.
+  - destruct Hos as [Hio Hos]. cbn [fst snd] in Ha |- *. split; [reflexivity|]. intros Hnn.
+    destruct (f_ty f) as [| u | | | | | | | | | |] eqn:Hft; try discriminate Hio. cbn [rsubst option_inner] in Ha.
+    destruct fn; [apply Hplain; exact Ha|]. destruct Hos as [Hd|Hsn]; [discriminate|].
+    eapply (Hinner u eq_refl Hnn Hsn); exact Ha.
+  - destruct Hos as [Hio Hos]. cbn [fst snd] in Ha |- *. split; [reflexivity|]. intros Hnn.
+    destruct (f_ty f) as [| u | | | | | | | | | |] eqn:Hft; try discriminate Hio. cbn [rsubst option_inner] in Ha.
+    destruct fn; [apply Hplain; exact Ha|]. destruct Hos as [Hd|Hsn]; [discriminate|].
+    eapply (Hinner u eq_refl Hnn Hsn); exact Ha.
+Qed.
+
 (* the entries of a named-field list against its generated properties *)
-Lemma named_fields_rel ra : forall fs vs entries props,
-  Forall plain_field fs ->
+Lemma named_fields_rel ra opt : forall fs vs entries props,
+  Forall (plain_field opt) fs ->
   named_entries st sargs ra fs vs = Some entries ->
-  omap_list (prop_of is_alnum is_numeric R inl gargs ra NotOptional) (live fs) = Ok props ->
+  omap_list (prop_of is_alnum is_numeric R inl gargs ra opt) (live fs) = Ok props ->
   (forall k j, In (k, j) entries -> exists p t, In (p, t) props /\ p_key p = k /\ ev t j) /\
-  (forall p t, In (p, t) props -> p_optional p = false /\ exists j, In (p_key p, j) entries) /\
+  (forall p t, In (p, t) props -> p_optional p = false -> exists j, In (p_key p, j) entries) /\
   map (fun p => p_key (fst p)) props = map (Gen.field_key ra) (live fs).
 Proof.
   induction fs as [|f fs IH]; intros vs entries props Hpl He Hp.
   - destruct vs; [|discriminate]. cbn in He, Hp. inversion He; inversion Hp; subst. repeat split; intros; try contradiction; reflexivity.
   - inversion Hpl as [|? ? Hf Hfs]; subst. destruct vs as [|v vs]; [discriminate|]. cbn [named_entries] in He.
     destruct (named_entries st sargs ra fs vs) as [rest|] eqn:Hrest; [|discriminate].
-    pose proof Hf as Hf0. destruct Hf as (Hfl & Hopt & Hty & Hsn & Hsty & Hmono & Hinl0).
+    pose proof Hf as (Hfl & Hty0 & Hsty & Hmono & Hinl0 & Hos).
     unfold live in *. cbn [filter] in Hp |- *. destruct (f_skip f) eqn:Hskip; cbn [negb] in Hp |- *.
     + inversion He; subst. eapply IH; eassumption.
-    + rewrite Hsn in He. cbn [andb] in He. rewrite Hsty, Hfl in He.
-      destruct (st (rsubst sargs (f_ty f)) v) as [j|] eqn:Hj; [|discriminate]. inversion He; subst; clear He.
-      cbn [omap_list] in Hp. unfold prop_of at 1 in Hp. rewrite Hty in Hp.
-      unfold field_ty, field_optional in Hp. rewrite Hopt in Hp. cbn [fst snd] in Hp.
-      change (if f_inline f then inl (rsubst gargs (f_ty f)) else name_of R (rsubst gargs (f_ty f))) with (fty f) in Hp.
-      destruct (fty f) as [a|?|?] eqn:Ha; cbn [bind] in Hp; try discriminate.
-      destruct (omap_list (prop_of is_alnum is_numeric R inl gargs ra NotOptional) (filter (fun fl => negb (f_skip fl)) fs)) as [ps|?|?] eqn:Hps; try discriminate.
-      inversion Hp; subst; clear Hp.
-      destruct (IH vs rest ps Hfs Hrest eq_refl) as (A & B & C).
-      repeat split.
-      * intros k j' [Heq|Hin'].
-        -- inversion Heq; subst. eexists; eexists. split; [left; reflexivity|]. split; [reflexivity|].
-           eapply Hfld; [exact Hf0 | eassumption | exact Ha].
-        -- destruct (A k j' Hin') as (p & t & Hp' & Hk & Hm). exists p, t. split; [right; exact Hp'|]. split; assumption.
-      * destruct H as [Heq|Hin']; [inversion Heq; reflexivity | apply (B p t Hin')].
-      * destruct H as [Heq|Hin'].
-        -- inversion Heq; subst. exists j. left. reflexivity.
-        -- destruct (B p t Hin') as [_ [j' Hj']]. exists j'. right. exact Hj'.
-      * cbn [map fst p_key]. f_equal. exact C.
+    + cbn [omap_list] in Hp. apply bind_ok in Hp as (p & Hpp & Hp). apply bind_ok in Hp as (ps & Hps & Hp). inversion Hp; subst props; clear Hp.
+      destruct (field_rel ra opt f v p Hf Hpp) as (Hk & Habs & Hpres).
+      destruct (f_skip_none f && match v with VNone => true | _ => false end) eqn:Hnn.
+      * inversion He; subst entries; clear He. destruct (IH vs rest ps Hfs Hrest Hps) as (A & B & C).
+        repeat split.
+        -- intros k j' Hin'. destruct (A k j' Hin') as (p0 & t & Hp' & Hk' & Hm). exists p0, t. split; [right; exact Hp'|]. split; assumption.
+        -- intros p0 t [Heq|Hin'] Ho; [|apply (B p0 t Hin' Ho)].
+           destruct p as [ph pt]. inversion Heq; subst. cbn [fst] in Habs. rewrite (Habs eq_refl) in Ho. discriminate.
+        -- cbn [map]. f_equal; [exact Hk | exact C].
+      * rewrite Hsty, Hfl in He.
+        destruct (st (rsubst sargs (f_ty f)) v) as [j|] eqn:Hj; [|discriminate]. inversion He; subst entries; clear He.
+        destruct (IH vs rest ps Hfs Hrest Hps) as (A & B & C).
+        repeat split.
+        -- intros k j' [Heq|Hin'].
+           ++ inversion Heq; subst. exists (fst p), (snd p). split; [left; apply surjective_pairing|]. split; [exact Hk|].
+              apply (Hpres eq_refl). reflexivity.
+           ++ destruct (A k j' Hin') as (p0 & t & Hp' & Hk' & Hm). exists p0, t. split; [right; exact Hp'|]. split; assumption.
+        -- intros p0 t [Heq|Hin'] Ho.
+           ++ destruct p as [ph pt]. inversion Heq; subst. exists j. left. cbn [fst] in Hk. rewrite Hk. reflexivity.
+           ++ destruct (B p0 t Hin' Ho) as [j' Hj']. exists j'. right. exact Hj'.
+        -- cbn [map]. f_equal; [exact Hk | exact C].
 Qed.
 
-(* tuple items against the generated element types *)
+(* tuple items against the generated element types: `optional` is not looked at in a tuple *)
+Definition plain_tfield (f : field) : Prop := plain_field NotOptional f /\ f_optional f = NotOptional.
+
 Lemma tuple_items_rel : forall fs vs items tys,
-  Forall plain_field fs ->
+  Forall plain_tfield fs ->
   tuple_items st sargs fs vs = Some items ->
   omap_list (value_ty R inl gargs) (live fs) = Ok tys ->
   Forall2 ev tys items.
@@ -198,17 +262,17 @@ Proof.
   induction fs as [|f fs IH]; intros vs items tys Hpl He Hp.
   - destruct vs; [|discriminate]. cbn in He, Hp. inversion He; inversion Hp; subst. constructor.
   - inversion Hpl as [|? ? Hf Hfs]; subst. destruct vs as [|v vs]; [discriminate|]. cbn [opt_map2] in He.
-    pose proof Hf as Hf0. destruct Hf as (Hfl & Hopt & Hty & Hsn & Hsty & Hmono & Hinl0).
+    destruct Hf as [(Hfl & Hty0 & Hsty & Hmono & Hinl0 & Hos) Hfo].
     unfold live in *. cbn [filter] in Hp. destruct (f_skip f) eqn:Hskip; cbn [negb] in Hp.
     + destruct (opt_map2 _ fs vs) as [rest|] eqn:Hrest; [|discriminate]. cbn in He. inversion He; subst.
       eapply IH; [exact Hfs| |exact Hp]. rewrite Hrest. reflexivity.
     + rewrite Hsty in He. destruct (st (rsubst sargs (f_ty f)) v) as [j|] eqn:Hj; [|discriminate]. cbn [option_map] in He.
       destruct (opt_map2 _ fs vs) as [rest|] eqn:Hrest; [|discriminate]. cbn in He. inversion He; subst; clear He.
-      cbn [omap_list] in Hp. unfold value_ty at 1 in Hp. rewrite Hty in Hp.
-      change (if f_inline f then inl (rsubst gargs (f_ty f)) else name_of R (rsubst gargs (f_ty f))) with (fty f) in Hp.
-      destruct (fty f) as [a|?|?] eqn:Ha; cbn [bind] in Hp; try discriminate.
+      cbn [omap_list] in Hp. unfold value_ty at 1 in Hp. rewrite Hty0 in Hp.
+      change (if f_inline f then inl (rsubst gargs (f_ty f)) else name_of R (rsubst gargs (f_ty f))) with (tytext (f_inline f) (f_ty f)) in Hp.
+      destruct (tytext (f_inline f) (f_ty f)) as [a|?|?] eqn:Ha; cbn [bind] in Hp; try discriminate.
       destruct (omap_list (value_ty R inl gargs) (filter (fun fl => negb (f_skip fl)) fs)) as [ts|?|?] eqn:Hts; try discriminate.
-      inversion Hp; subst. constructor; [eapply Hfld; [exact Hf0 | eassumption | exact Ha]|].
+      inversion Hp; subst. constructor; [eapply (Hty (f_inline f) (f_ty f) v j a); eassumption|].
       eapply IH; [exact Hfs| |reflexivity]. rewrite Hrest. reflexivity.
 Qed.
 
@@ -217,7 +281,7 @@ Proof.
   induction l as [|x l IH]; cbn; intros H; [reflexivity|]. rewrite (H x (or_introl eq_refl)). apply IH. intros; apply H; right; assumption.
 Qed.
 
-Lemma live_plain fs : Forall plain_field fs -> Forall plain_field (live fs).
+Lemma live_plain opt fs : Forall (plain_field opt) fs -> Forall (plain_field opt) (live fs).
 Proof. intros H. unfold live. rewrite Forall_forall in *. intros x Hx. apply H. eapply filter_incl_in; exact Hx. Qed.
 
 Lemma ev_neverarr : ev TNeverArr (JArr []).
@@ -227,12 +291,12 @@ Proof. exists 1%nat. intros [|f] Hf; [lia | reflexivity]. Qed.
 Lemma ev_null : ev (TPrim (lit "null")) JNull.
 Proof. apply evs_prim. reflexivity. Qed.
 
-Definition plain_shape (s : shape) : Prop :=
+Definition plain_shape (opt : optional) (s : shape) : Prop :=
   match s with
   | SUnit => True
-  | STuple [f] => plain_field f /\ f_skip f = false        (* a skipped newtype field is a known class *)
-  | STuple fs => Forall plain_field fs
-  | SNamed fs => Forall plain_field fs
+  | STuple [f] => plain_tfield f /\ f_skip f = false        (* a skipped newtype field is a known class *)
+  | STuple fs => Forall plain_tfield fs
+  | SNamed fs => Forall (plain_field opt) fs
   end.
 
 Definition keys_distinct (ra : option rule) (extra : list str) (s : shape) : Prop :=
@@ -242,15 +306,15 @@ Definition keys_distinct (ra : option rule) (extra : list str) (s : shape) : Pro
   end.
 
 (* the named fields as an object, possibly with leading extra properties (a tag) *)
-Lemma named_object ra fs vs entries props (xprops : list (phead * tsty)) (xentries : list (str * json)) :
-  Forall plain_field fs ->
+Lemma named_object ra opt fs vs entries props (xprops : list (phead * tsty)) (xentries : list (str * json)) :
+  Forall (plain_field opt) fs ->
   named_entries st sargs ra fs vs = Some entries ->
-  omap_list (prop_of is_alnum is_numeric R inl gargs ra NotOptional) (live fs) = Ok props ->
+  omap_list (prop_of is_alnum is_numeric R inl gargs ra opt) (live fs) = Ok props ->
   NoDup (map (fun p => p_key (fst p)) xprops ++ map (Gen.field_key ra) (live fs)) ->
   Forall2 (fun p e => p_key (fst p) = fst e /\ p_optional (fst p) = false /\ ev (snd p) (snd e)) xprops xentries ->
   ev (TObj OStruct (xprops ++ props)) (JObj (xentries ++ entries)).
 Proof.
-  intros Hpl He Hp Hnd Hx. destruct (named_fields_rel ra fs vs entries props Hpl He Hp) as (A & B & C).
+  intros Hpl He Hp Hnd Hx. destruct (named_fields_rel ra opt fs vs entries props Hpl He Hp) as (A & B & C).
   apply evs_obj.
   - rewrite map_app, C. exact Hnd.
   - intros k j Hin. apply in_app_or in Hin as [Hin|Hin].
@@ -262,13 +326,13 @@ Proof.
     + clear -Hx Hin. induction Hx as [|p0 e xp xe (Hk & Ho & Hm) _ IH]; [destruct Hin|].
       destruct Hin as [Heq|Hin]; [|destruct (IH Hin) as [j Hj]; exists j; right; exact Hj].
       subst p0. cbn in Hk. exists (snd e). left. rewrite Hk. destruct e; reflexivity.
-    + destruct (B p t Hin) as [_ [j Hj]]. exists j. apply in_or_app. right. exact Hj.
+    + destruct (B p t Hin Hopt) as [j Hj]. exists j. apply in_or_app. right. exact Hj.
 Qed.
 
-Lemma shape_member ra s vs j r :
-  plain_shape s -> keys_distinct ra [] s ->
+Lemma shape_member ra opt s vs j r :
+  plain_shape opt s -> keys_distinct ra [] s ->
   shape_ser st sargs ra s vs = Some j ->
-  shape_gen is_alnum is_numeric R inl flt gargs ra NotOptional None s = Ok r ->
+  shape_gen is_alnum is_numeric R inl flt gargs ra opt None s = Ok r ->
   ev (fst r) j.
 Proof.
   intros Hpl Hkd Hs Hg. destruct s as [|fs|fs].
@@ -276,10 +340,11 @@ Proof.
   - destruct fs as [|f [|f2 fs]].
     + cbn in Hs, Hg. unfold tuple_items in Hs. destruct vs; [|discriminate]. cbn in Hs. inversion Hs; inversion Hg; subst. apply ev_neverarr.
     + destruct Hpl as [Hf Hsk]. cbn [shape_ser shape_gen] in Hs, Hg. rewrite Hsk in Hg.
-      destruct vs as [|v [|? ?]]; try discriminate. pose proof Hf as Hf0. destruct Hf as (Hfl & Hopt & Hty & Hsn & Hsty & Hmono & Hinl0).
-      rewrite Hsty in Hs. unfold value_ty in Hg. rewrite Hty in Hg.
-      change (if f_inline f then inl (rsubst gargs (f_ty f)) else name_of R (rsubst gargs (f_ty f))) with (fty f) in Hg.
-      destruct (fty f) as [a|?|?] eqn:Ha; try discriminate. inversion Hg; subst. cbn [fst]. eapply Hfld; [exact Hf0 | eassumption | exact Ha].
+      destruct vs as [|v [|? ?]]; try discriminate. destruct Hf as [(Hfl & Hty0 & Hsty & Hmono & Hinl0 & Hos) Hfo].
+      rewrite Hsty in Hs. unfold value_ty in Hg. rewrite Hty0 in Hg.
+      change (if f_inline f then inl (rsubst gargs (f_ty f)) else name_of R (rsubst gargs (f_ty f))) with (tytext (f_inline f) (f_ty f)) in Hg.
+      destruct (tytext (f_inline f) (f_ty f)) as [a|?|?] eqn:Ha; try discriminate. inversion Hg; subst. cbn [fst].
+      eapply (Hty (f_inline f) (f_ty f) v j a); eassumption.
     + cbn [plain_shape] in Hpl. cbn [shape_ser shape_gen] in Hs, Hg.
       destruct (tuple_items st sargs (f :: f2 :: fs) vs) as [items|] eqn:Hi; [|discriminate]. inversion Hs; subst.
       apply bind_ok in Hg as (tys & Htys & Hg). inversion Hg; subst. cbn [fst].
@@ -290,40 +355,40 @@ Proof.
     + cbn in Hg. inversion Hg; subst. destruct vs; [|discriminate]. cbn in He. inversion He; subst. apply ev_recnever.
     + cbn [shape_gen] in Hg.
       rewrite (filter_all (fun fl => negb (is_flat fl)) (live (f :: fs'))) in Hg
-        by (intros x Hx; rewrite (is_flat_plain x); [reflexivity | pose proof (live_plain _ Hpl) as Hl; rewrite Forall_forall in Hl; auto]).
+        by (intros x Hx; rewrite (is_flat_plain opt x); [reflexivity | pose proof (live_plain opt _ Hpl) as Hl; rewrite Forall_forall in Hl; auto]).
       rewrite (filter_none is_flat (live (f :: fs'))) in Hg
-        by (intros x Hx; apply is_flat_plain; pose proof (live_plain _ Hpl) as Hl; rewrite Forall_forall in Hl; auto).
+        by (intros x Hx; apply (is_flat_plain opt); pose proof (live_plain opt _ Hpl) as Hl; rewrite Forall_forall in Hl; auto).
       apply bind_ok in Hg as (props & Hp & Hg). cbn [omap_list bind] in Hg.
       assert (Hr : r = (TMerged (TObj OStruct props), Some (TMerged (TObj OStruct props)))) by (destruct props; inversion Hg; reflexivity).
       subst r. cbn [fst]. apply evs_merged.
-      apply (named_object ra (f :: fs') vs entries props [] [] Hpl He Hp); [exact Hkd | constructor].
+      apply (named_object ra opt (f :: fs') vs entries props [] [] Hpl He Hp); [exact Hkd | constructor].
 Qed.
 
 (* a named shape carrying a tag property (struct-level `tag`, struct variant of an internally tagged enum) *)
-Lemma tagged_named_member ra fs vs entries t nm r :
-  Forall plain_field fs -> NoDup (t :: map (Gen.field_key ra) (live fs)) ->
+Lemma tagged_named_member ra opt fs vs entries t nm r :
+  Forall (plain_field opt) fs -> NoDup (t :: map (Gen.field_key ra) (live fs)) ->
   named_entries st sargs ra fs vs = Some entries ->
-  shape_gen is_alnum is_numeric R inl flt gargs ra NotOptional (Some (t, nm)) (SNamed fs) = Ok r ->
+  shape_gen is_alnum is_numeric R inl flt gargs ra opt (Some (t, nm)) (SNamed fs) = Ok r ->
   ev (fst r) (JObj ((t, JStr nm) :: entries)) /\ exists x, snd r = Some x.
 Proof.
   intros Hpl Hnd He Hg. cbn [shape_gen] in Hg.
-  assert (Hg' : bind (omap_list (prop_of is_alnum is_numeric R inl gargs ra NotOptional) (live fs)) (fun props =>
+  assert (Hg' : bind (omap_list (prop_of is_alnum is_numeric R inl gargs ra opt) (live fs)) (fun props =>
                   Ok (TMerged (TObj OStruct ((quoted_head t, TLit nm) :: props)), Some (TMerged (TObj OStruct ((quoted_head t, TLit nm) :: props))))) = Ok r).
   { destruct fs as [|f fs']; [cbn in Hg |- *; exact Hg|].
     rewrite (filter_all (fun fl => negb (is_flat fl)) (live (f :: fs'))) in Hg
-      by (intros x Hx; rewrite (is_flat_plain x); [reflexivity | pose proof (live_plain _ Hpl) as Hl; rewrite Forall_forall in Hl; auto]).
+      by (intros x Hx; rewrite (is_flat_plain opt x); [reflexivity | pose proof (live_plain opt _ Hpl) as Hl; rewrite Forall_forall in Hl; auto]).
     rewrite (filter_none is_flat (live (f :: fs'))) in Hg
-      by (intros x Hx; apply is_flat_plain; pose proof (live_plain _ Hpl) as Hl; rewrite Forall_forall in Hl; auto).
+      by (intros x Hx; apply (is_flat_plain opt); pose proof (live_plain opt _ Hpl) as Hl; rewrite Forall_forall in Hl; auto).
     exact Hg. }
   clear Hg. apply bind_ok in Hg' as (props & Hp & Hg). inversion Hg; subst; clear Hg. cbn [fst snd].
   split; [|eauto]. apply evs_merged.
-  apply (named_object ra fs vs entries props [(quoted_head t, TLit nm)] [(t, JStr nm)] Hpl He Hp).
+  apply (named_object ra opt fs vs entries props [(quoted_head t, TLit nm)] [(t, JStr nm)] Hpl He Hp).
   - cbn [map fst p_key quoted_head app]. exact Hnd.
   - constructor; [|constructor]. cbn. repeat split. apply evs_lit.
 Qed.
 
 Definition plain_variant (tg : tagging) (v : variant) : Prop :=
-  v_type v = None /\ v_as v = None /\ v_untagged v = false /\ plain_shape (v_shape v) /\
+  v_type v = None /\ v_as v = None /\ v_untagged v = false /\ plain_shape NotOptional (v_shape v) /\
   match tg with
   | Internal _ => match v_shape v with STuple _ => False | _ => True end   (* serde rejects tuple variants; newtype needs a map *)
   | _ => True
@@ -362,8 +427,8 @@ Lemma variant_member a tg raf v vs j x :
   variant_gen is_upper is_alnum is_numeric R inl flt gargs a tg raf v = Ok x ->
   ev x j.
 Proof.
-  intros (Hty & Has & Hun & Hsh & Htg) Hkd Hs Hg.
-  unfold variant_ser in Hs. unfold variant_gen in Hg. rewrite Hun in Hs, Hg. rewrite Has, Hty in Hg.
+  intros (Hvty & Has & Hun & Hsh & Htg) Hkd Hs Hg.
+  unfold variant_ser in Hs. unfold variant_gen in Hg. rewrite Hun in Hs, Hg. rewrite Has, Hvty in Hg.
   destruct (v_skip v); [discriminate|].
   change (Serde.variant_name is_upper (c_rename_all a) v) with (Gen.variant_name is_upper (c_rename_all a) v) in Hs.
   set (name := Gen.variant_name is_upper (c_rename_all a) v) in *.
@@ -393,7 +458,7 @@ Proof.
     + cbn [is_named andb negb] in Hvt. cbn [is_named_shape] in Hs.
       cbn [shape_ser] in Hs. destruct (named_entries st sargs ra fs vs) as [entries|] eqn:He; [|discriminate]. cbn [option_map] in Hs.
       inversion Hs; subst. cbn [variant_keys_distinct keys_distinct app] in Hkd.
-      destruct (tagged_named_member ra fs vs entries t name vt Hsh Hkd He Hvt) as [Hm [y Hy]].
+      destruct (tagged_named_member ra NotOptional fs vs entries t name vt Hsh Hkd He Hvt) as [Hm [y Hy]].
       rewrite Hy in Hg. inversion Hg; subst. exact Hm.
   - (* adjacently tagged *)
     destruct Hkd as [Hne Hkd].
@@ -422,7 +487,7 @@ Definition plain_def (d : typedef) : Prop :=
   c_type a = None /\ c_as a = None /\ length (c_params a) = n /\
   match d with
   | DStruct a s =>
-      c_optional_fields a = NotOptional /\ plain_shape s /\
+      plain_shape (c_optional_fields a) s /\
       match c_tag a with
       | None => keys_distinct (c_rename_all a) [] s
       | Some t => exists fs, s = SNamed fs /\ NoDup (t :: map (Gen.field_key (c_rename_all a)) (live fs))
@@ -444,9 +509,9 @@ Lemma def_member d v j r :
   def_body is_upper is_alnum is_numeric R inl flt d gargs = Ok r ->
   ev (fst r) j.
 Proof.
-  intros (Hty & Has & Hps & Hd) Hs Hg. unfold def_body in Hg. rewrite Hty, Has in Hg.
+  intros (Hdty & Has & Hps & Hd) Hs Hg. unfold def_body in Hg. rewrite Hdty, Has in Hg.
   destruct d as [a s|a tg raf vs]; cbn [attrs_of] in *.
-  - destruct Hd as (Hopt & Hsh & Htag). destruct v; try discriminate. cbn [def_ser] in Hs. rewrite Hopt in Hg.
+  - destruct Hd as (Hsh & Htag). destruct v; try discriminate. cbn [def_ser] in Hs.
     destruct (c_tag a) as [t|] eqn:Ht.
     + destruct Htag as (fs0 & -> & Hnd). destruct (named_entries st sargs (c_rename_all a) fs0 fs) as [entries|] eqn:He; [|discriminate].
       inversion Hs; subst. eapply tagged_named_member; eassumption.
@@ -681,42 +746,70 @@ Proof. destruct o; [discriminate | reflexivity]. Qed.
 Section Dec.
 Variable R : env.
 
-Definition plain_fieldb (n : nat) (f : field) : bool :=
-  negb (f_flatten f) && match f_optional f with NotOptional => true | _ => false end &&
-  is_none (f_type f) && negb (f_skip_none f) && rty_eqb (f_serde_ty f) (f_ty f) && pmono R n (f_ty f) &&
-  (negb (f_inline f) || Nat.eqb n 0).
+Definition not_paramb (t : rty) : bool := match t with RParam _ => false | _ => true end.
 
-Lemma plain_fieldb_ok n f : plain_fieldb n f = true -> plain_field R n f.
+Definition opt_soundb (opt : optional) (f : field) : bool :=
+  match f_optional f, opt with
+  | NotOptional, NotOptional => negb (f_skip_none f)
+  | NotOptional, Optional nl => not_paramb (f_ty f) && (if is_option (f_ty f) then nl || f_skip_none f else negb (f_skip_none f))
+  | Optional nl, _ => is_option (f_ty f) && (nl || f_skip_none f)
+  end.
+
+Lemma opt_soundb_ok opt f : opt_soundb opt f = true -> opt_sound opt f.
+Proof.
+  unfold opt_soundb, opt_sound. destruct (f_optional f) as [|fn]; destruct opt as [|on]; intros H.
+  - apply negb_true_iff; exact H.
+  - apply andb_true_iff in H as [H1 H2]. split; [destruct (f_ty f); try exact I; discriminate|].
+    destruct (is_option (f_ty f)); [apply orb_true_iff in H2; exact H2 | apply negb_true_iff; exact H2].
+  - apply andb_true_iff in H as [H1 H2]. split; [exact H1 | apply orb_true_iff in H2; exact H2].
+  - apply andb_true_iff in H as [H1 H2]. split; [exact H1 | apply orb_true_iff in H2; exact H2].
+Qed.
+
+Definition plain_fieldb (n : nat) (opt : optional) (f : field) : bool :=
+  negb (f_flatten f) && is_none (f_type f) && rty_eqb (f_serde_ty f) (f_ty f) && pmono R n (f_ty f) &&
+  (negb (f_inline f) || Nat.eqb n 0) && opt_soundb opt f.
+
+Lemma plain_fieldb_ok n opt f : plain_fieldb n opt f = true -> plain_field R n opt f.
 Proof.
   unfold plain_fieldb, plain_field. intros H.
   repeat match type of H with (_ && _) = true => let H' := fresh "H" in apply andb_true_iff in H as [H H'] end.
-  repeat split; try (apply negb_true_iff; assumption).
-  - destruct (f_optional f); try discriminate; reflexivity.
+  repeat split.
+  - apply negb_true_iff; assumption.
   - apply is_none_eq; assumption.
   - apply rty_eqb_eq; assumption.
   - assumption.
   - intros Hi. match goal with Hx : (negb (f_inline f) || Nat.eqb n 0)%bool = true |- _ => rewrite Hi in Hx; cbn in Hx; apply Nat.eqb_eq in Hx; exact Hx end.
+  - apply opt_soundb_ok; assumption.
 Qed.
 
-Definition plain_shapeb (n : nat) (s : shape) : bool :=
+Definition plain_tfieldb (n : nat) (f : field) : bool :=
+  plain_fieldb n NotOptional f && match f_optional f with NotOptional => true | _ => false end.
+
+Lemma plain_tfieldb_ok n f : plain_tfieldb n f = true -> plain_tfield R n f.
+Proof.
+  unfold plain_tfieldb, plain_tfield. intros H. apply andb_true_iff in H as [H1 H2].
+  split; [apply plain_fieldb_ok; exact H1 | destruct (f_optional f); [reflexivity | discriminate]].
+Qed.
+
+Definition plain_shapeb (n : nat) (opt : optional) (s : shape) : bool :=
   match s with
   | SUnit => true
-  | STuple [f] => plain_fieldb n f && negb (f_skip f)
-  | STuple fs => forallb (plain_fieldb n) fs
-  | SNamed fs => forallb (plain_fieldb n) fs
+  | STuple [f] => plain_tfieldb n f && negb (f_skip f)
+  | STuple fs => forallb (plain_tfieldb n) fs
+  | SNamed fs => forallb (plain_fieldb n opt) fs
   end.
 
 Lemma forallb_Forall' {A} (p : A -> bool) (P : A -> Prop) l : (forall x, p x = true -> P x) -> forallb p l = true -> Forall P l.
 Proof. intros Hp H. rewrite forallb_forall in H. apply Forall_forall. auto. Qed.
 
-Lemma plain_shapeb_ok n s : plain_shapeb n s = true -> plain_shape R n s.
+Lemma plain_shapeb_ok n opt s : plain_shapeb n opt s = true -> plain_shape R n opt s.
 Proof.
   destruct s as [|fs|fs]; cbn [plain_shapeb plain_shape]; intros H.
   - exact I.
   - destruct fs as [|f [|g r]].
     + constructor.
-    + apply andb_true_iff in H as [H1 H2]. split; [apply plain_fieldb_ok; exact H1 | apply negb_true_iff; exact H2].
-    + eapply forallb_Forall'; [apply plain_fieldb_ok | exact H].
+    + apply andb_true_iff in H as [H1 H2]. split; [apply plain_tfieldb_ok; exact H1 | apply negb_true_iff; exact H2].
+    + eapply forallb_Forall'; [apply plain_tfieldb_ok | exact H].
   - eapply forallb_Forall'; [apply plain_fieldb_ok | exact H].
 Qed.
 
@@ -730,7 +823,7 @@ Lemma keys_distinctb_ok ra extra s : keys_distinctb ra extra s = true -> keys_di
 Proof. destruct s; cbn; intros H; try exact I. apply nodupb_NoDup. exact H. Qed.
 
 Definition plain_variantb (n : nat) (tg : tagging) (v : variant) : bool :=
-  is_none (v_type v) && is_none (v_as v) && negb (v_untagged v) && plain_shapeb n (v_shape v) &&
+  is_none (v_type v) && is_none (v_as v) && negb (v_untagged v) && plain_shapeb n NotOptional (v_shape v) &&
   match tg with
   | Internal _ => match v_shape v with STuple _ => false | _ => true end
   | _ => true
@@ -767,7 +860,7 @@ Definition plain_defb (d : typedef) : bool :=
   is_none (c_type a) && is_none (c_as a) && nodupb (map fst (c_params a)) &&
   match d with
   | DStruct a s =>
-      match c_optional_fields a with NotOptional => true | _ => false end && plain_shapeb n s &&
+      plain_shapeb n (c_optional_fields a) s &&
       match c_tag a with
       | None => keys_distinctb (c_rename_all a) [] s
       | Some t => match s with SNamed fs => nodupb (t :: map (Gen.field_key (c_rename_all a)) (live fs)) | _ => false end
@@ -784,8 +877,7 @@ Proof.
   split; [apply is_none_eq; exact Hty|]. split; [apply is_none_eq; exact Has|].
   split; [reflexivity|].
   destruct d as [a s|a tg raf vs].
-  - apply andb_true_iff in Hd as [Hd Htag]. apply andb_true_iff in Hd as [Hopt Hsh].
-    split; [destruct (c_optional_fields a); try discriminate; reflexivity|].
+  - apply andb_true_iff in Hd as [Hsh Htag].
     split; [apply plain_shapeb_ok; exact Hsh|].
     destruct (c_tag a) as [t|]; [|apply keys_distinctb_ok; exact Htag].
     destruct s as [|fs|fs]; try discriminate. exists fs. split; [reflexivity | apply nodupb_NoDup; exact Htag].
@@ -1001,16 +1093,19 @@ Proof.
             lib_inline R (gen g') t0 = Ok a0 -> ev a0 j0).
   { intros g' t0 v0 j0 a0 Hm0 Hs0 Ha0. eapply lib_inline_ev; [|exact Hm0 | exact Hs0 | exact Ha0].
     intros id2 d2 args2 v2 j2 r2 Hlk2 Hlen2 Hm2 Hs2 Hr2. eapply IHB; eassumption. }
+  assert (Hopt : forall u v0 j0, ser_ty R (sdef is_upper R m) (ROption u) v0 = Some j0 ->
+            (v0 = VNone /\ j0 = JNull) \/ exists w, v0 = VSome w /\ ser_ty R (sdef is_upper R m) u w = Some j0).
+  { intros u v0 j0 H0. cbn [Serde.ser_ty] in H0. destruct v0; try discriminate; [left; inversion H0; split; reflexivity | right; eexists; split; [reflexivity | exact H0]]. }
   split.
   - intros g d id args v j r l ps Hlk Hlen Hargs Hs Hr Hl Hps.
     destruct (env_facts _ _ Hlk) as (Hpd & Hnp & _).
     destruct g as [|g']; [cbn in Hr; discriminate|]. cbn [Gen.gen] in Hr. cbn [sdef] in Hs.
     eapply (def_member is_upper is_alnum is_numeric R env_of (ser_ty R (sdef is_upper R m)) (lib_inline R (gen g')) (lib_flat R (gen g'))
-              (nparams d) args (dummies (attrs_of d)) (bind_params ps l) (bind_params ps l)); [|exact Hpd | exact Hs | exact Hr].
-    intros f v0 j0 a0 Hf Hs0 Ha0. unfold evs. destruct Hf as (_ & _ & _ & _ & _ & Hpm & Hin0). unfold fty in Ha0.
-    assert (Hmono : mono_ty (rsubst args (f_ty f)) = true).
+              (nparams d) args (dummies (attrs_of d)) (bind_params ps l) (bind_params ps l)); [|exact Hopt|exact Hpd | exact Hs | exact Hr].
+    intros b t0 v0 j0 a0 Hpm Hin0 Hs0 Ha0. unfold evs. unfold tytext in Ha0.
+    assert (Hmono : mono_ty (rsubst args t0) = true).
     { apply (pmono_subst R (nparams d) args); [apply Forall_forall; rewrite forallb_forall in Hargs; exact Hargs | exact Hlen | exact Hpm]. }
-    destruct (f_inline f) eqn:Hi.
+    destruct b.
     + (* inline: only in definitions without parameters *)
       specialize (Hin0 eq_refl). unfold nparams in Hin0, Hlen. rewrite Hin0 in Hlen.
       destruct args; [|discriminate]. assert (Hc : c_params (attrs_of d) = []) by (destruct (c_params (attrs_of d)); [reflexivity | discriminate]).
@@ -1018,17 +1113,17 @@ Proof.
       cbn [bind_params]. rewrite tsubst_none. eapply Hinl; [exact Hmono | exact Hs0 | exact Ha0].
     + rewrite dummies_eq in Ha0.
       eapply lib_ev; [exact Href | exact Hmono | exact Hs0|].
-      exact (name_of_tsubst R (nparams d) (map fst (c_params (attrs_of d))) args l ps Hnp Hps (map_length _ _) Hl Hlen (f_ty f) a0 Hpm Ha0).
+      exact (name_of_tsubst R (nparams d) (map fst (c_params (attrs_of d))) args l ps Hnp Hps (map_length _ _) Hl Hlen t0 a0 Hpm Ha0).
   - intros g d id args v j r Hlk Hlen Hargs Hs Hr.
     destruct (env_facts _ _ Hlk) as (Hpd & Hnp & _).
     destruct g as [|g']; [cbn in Hr; discriminate|]. cbn [Gen.gen] in Hr. cbn [sdef] in Hs.
     rewrite <- (tsubst_none (fst r)).
     eapply (def_member is_upper is_alnum is_numeric R env_of (ser_ty R (sdef is_upper R m)) (lib_inline R (gen g')) (lib_flat R (gen g'))
-              (nparams d) args args (fun _ => None) (fun _ => None)); [|exact Hpd | exact Hs | exact Hr].
-    intros f v0 j0 a0 Hf Hs0 Ha0. unfold evs. rewrite tsubst_none. destruct Hf as (_ & _ & _ & _ & _ & Hpm & Hin0). unfold fty in Ha0.
-    assert (Hmono : mono_ty (rsubst args (f_ty f)) = true).
+              (nparams d) args args (fun _ => None) (fun _ => None)); [|exact Hopt|exact Hpd | exact Hs | exact Hr].
+    intros b t0 v0 j0 a0 Hpm Hin0 Hs0 Ha0. unfold evs. rewrite tsubst_none. unfold tytext in Ha0.
+    assert (Hmono : mono_ty (rsubst args t0) = true).
     { apply (pmono_subst R (nparams d) args); [apply Forall_forall; rewrite forallb_forall in Hargs; exact Hargs | exact Hlen | exact Hpm]. }
-    destruct (f_inline f); [eapply Hinl | eapply lib_ev; [exact Href|..]]; eassumption.
+    destruct b; [eapply Hinl | eapply lib_ev; [exact Href|..]]; eassumption.
 Qed.
 
 Theorem derive_layer_member : forall m t v j a,
